@@ -363,7 +363,7 @@ class ModelDefect(Exception):
 def check_pure(ctx, case):
     dA, dB = case["dA"], case["dB"]
     m = min(dA, dB)
-    t = Tally(ctx, "pure", case, "C14.schmidtRank_planted / negativity_pure_traceNorm / amplitude_local_unitary")
+    t = Tally(ctx, "pure", case, "C14.schmidtRank_closed_form / negativity_planted / amplitude_local_unitary / rankCert_sound / skVecNormSq_max")
     try:
         psi, psi_x, tr = pure_state(ctx, case)
     except ModelDefect as e:
@@ -600,7 +600,7 @@ def make_mixed_case(rng, dA, dB, rank, spectral=False, incoherent=False):
 def check_mixed(ctx, case):
     dA, dB = case["dA"], case["dB"]
     N = dA * dB
-    t = Tally(ctx, "mixed", case, "C14.pT_local_unitary / purity_unitary_invariant / charpoly_unitary_invariant / schmidtRank_local_invariant")
+    t = Tally(ctx, "mixed", case, "C14.pT_local_unitary / purity_unitary_invariant / charpoly_unitary_invariant / charpoly_planted_spectrum / schmidtRank_local_invariant")
     lean = ctx.lean()
     lu = lean.ask("c14_local_unitary_op", {"dA": dA, "dB": dB, "rho": case["rho"], "U": case["U"], "V": case["V"]})
     op = lean.ask("c14_op", {"dA": dA, "dB": dB, "rho": case["rho"]})
@@ -736,7 +736,7 @@ def check_product(ctx, case):
     dims = case["dims"]
     n = len(dims)
     opr = case["operator"]
-    t = Tally(ctx, "product", case, "C14.isProduct_iff_minors / ampMat_kron")
+    t = Tally(ctx, "product", case, "C14.isProduct_iff_minors / minorsVanish_iff / ampMat_kron")
     f1 = [unsplit(o) for o in case["f1"]]
     f2 = [unsplit(o) for o in case["f2"]]
     x = kron_all(f1)
@@ -812,7 +812,7 @@ def make_oprank_case(rng, dA, dB, r):
 def check_oprank(ctx, case):
     dA, dB = case["dA"], case["dB"]
     N = dA * dB
-    t = Tally(ctx, "oprank", case, "C14.operatorAmp_eq_realign / schmidtRank_local_invariant")
+    t = Tally(ctx, "oprank", case, "C14.operatorAmp_eq_realign / schmidtRankOp_eq_spec / schmidtRank_local_invariant / rankCert_sound")
     X = sum(np.kron(unsplit(a), unsplit(b)) for a, b in zip(case["A"], case["B"]))
     lu = ctx.lean().ask("c14_local_unitary_op", {"dA": dA, "dB": dB, "rho": xm_json(xm_from(X)), "U": case["U"], "V": case["V"]})
     op = ctx.lean().ask("c14_op", {"dA": dA, "dB": dB, "rho": xm_json(xm_from(X))})
@@ -892,7 +892,7 @@ def make_sk_case(rng, dA, dB, k, variant):
 def check_sk(ctx, case):
     dA, dB, k, variant = case["dA"], case["dB"], case["k"], case["variant"]
     N = dA * dB
-    t = Tally(ctx, "sk", case, "C14.skVecNormSq_mono / skVecNormSq_full (closed form); bracket clause is one-sided (partial)")
+    t = Tally(ctx, "sk", case, "C14.skVecNormSq_max / skVecNormSq_attained (closed form of the rank-one case); the bracket clause is one-sided (partial)")
     try:
         psi, _, tr = pure_state(ctx, case)
     except ModelDefect as e:
@@ -1045,7 +1045,7 @@ def run(ctx, model_ok=True):
         CHECKS[case["kind"]](ctx, case)
     ctx.extra["partial_clauses"] = [
         "S(k) operator norm / block positivity: one-sided certification (upper bound against explicit Schmidt-rank-<=k vectors; two-sided only on operators with a closed form)",
-        "trace norm of the partial transpose: proved as the trace of the positive square root (C14.negativity_pure_traceNorm); the identification with numpy's nuclear norm (sum of singular values) is the standard fact ||X||_1 = tr sqrt(X^H X)",
+        "trace norm of the partial transpose: proved as the trace of the positive square root (C14.negativity_planted, C14.traceNorm_pT_pure); the identification with numpy's nuclear norm (sum of singular values) is the standard fact ||X||_1 = tr sqrt(X^H X)",
     ]
 
 
